@@ -169,7 +169,7 @@ PROPS = {
     "C02": dict(
         facts=True,
         families=[dict(name="tree", args=["-specs", "1,12"]), dict(name="hist", args=["-specs", "1,12"]),
-                  dict(name="pipe", args=["-specs", "1,12"]), dict(name="fault", args=["-specs", "48"]),
+                  dict(name="pipe", args=["-specs", "1,12", "-n", "10"]), dict(name="fault", args=["-specs", "48"]),
                   dict(name="remote", args=["-specs", "32,33"])],
         level_text="Theorems C02_history / C02_step / C02_commit / C02_initial: for every history of commands of the "
                    "whole-program model from any state with a well-formed cache (in particular the empty one), every "
